@@ -81,4 +81,43 @@ theorem T_C09_point_mirror_aux (n o l : V3) (hn : V3.dot n n ≠ 0) :
     show mirLin n (l - o) + o = l
     rw [mirLin_inplane n _ h, sub_add_cancel']
 
+/-! ### writing follower points into the grid -/
+
+theorem getD_set_eq' (l : List V3) (i : Nat) (v : V3) (h : i < l.length) : (l.set i v).getD i V3.zero = v := by
+  simp [List.getD_eq_getElem?_getD, List.getElem?_set, h]
+
+theorem getD_set_ne' (l : List V3) (i j : Nat) (v : V3) (h : i ≠ j) : (l.set i v).getD j V3.zero = l.getD j V3.zero := by
+  simp [List.getD_eq_getElem?_getD, List.getElem?_set, h]
+
+theorem foldl_set_length (links : List (Nat × (V3 → V3))) (p : V3) (acc : List V3) :
+    (links.foldl (fun acc l => acc.set l.1 (l.2 p)) acc).length = acc.length := by
+  induction links generalizing acc with
+  | nil => rfl
+  | cons l ls ih => simp only [List.foldl_cons]; rw [ih]; simp
+
+theorem foldl_set_untouched (links : List (Nat × (V3 → V3))) (p : V3) (acc : List V3) (j : Nat)
+    (hj : j ∉ links.map Prod.fst) :
+    (links.foldl (fun acc l => acc.set l.1 (l.2 p)) acc).getD j V3.zero = acc.getD j V3.zero := by
+  induction links generalizing acc with
+  | nil => rfl
+  | cons l ls ih =>
+      simp only [List.map_cons, List.mem_cons, not_or] at hj
+      simp only [List.foldl_cons]
+      rw [ih _ hj.2]
+      exact getD_set_ne' _ _ _ _ (fun h => hj.1 h.symm)
+
+theorem foldl_set_written (links : List (Nat × (V3 → V3))) (p : V3) (acc : List V3) (l : Nat × (V3 → V3))
+    (hnd : (links.map Prod.fst).Nodup) (hl : l ∈ links) (hlt : l.1 < acc.length) :
+    (links.foldl (fun acc l => acc.set l.1 (l.2 p)) acc).getD l.1 V3.zero = l.2 p := by
+  induction links generalizing acc with
+  | nil => cases hl
+  | cons x xs ih =>
+      simp only [List.map_cons, List.nodup_cons] at hnd
+      simp only [List.foldl_cons]
+      rcases List.mem_cons.mp hl with h | h
+      · subst h
+        rw [foldl_set_untouched xs p _ _ hnd.1]
+        exact getD_set_eq' _ _ _ hlt
+      · exact ih _ hnd.2 h (by simp; exact hlt)
+
 end CBV.C17
